@@ -66,7 +66,8 @@ Definition oresp_eqb (o : oresp) (r : nh_resp) : bool :=
    the session table (sorted session indices) and the messages each stub transporter has received so far *)
 Inductive cev :=
 | E (e : ctl_ev)
-| O (table : list Z) (inboxes : list (Z * list oresp)).
+| O (table : list Z) (inboxes : list (Z * list oresp))
+| OC (names : list bytes).            (* the names the controller lists (clientCfgs), any order *)
 
 Inductive case :=
 | CAn (ops : list nh_aop) (obs : list orec)
@@ -115,7 +116,7 @@ Fixpoint oresps_eqb (a : list oresp) (b : list nh_resp) : bool :=
 Fixpoint zl_eqb (a b : list Z) : bool :=
   match a, b with [], [] => true | x :: a', y :: b' => (x =? y) && zl_eqb a' b' | _, _ => false end.
 
-(* 0 agree | 30 an observed event is not enabled in the model | 31 session table differs | 32 an inbox differs
+(* 0 agree | 30 an observed event is not enabled in the model | 31 session table differs | 32 an inbox differs | 34 registered names differ
    | 33 messages for a transporter the observation does not list *)
 Fixpoint ctl_check (auth : bytes -> Z -> bytes) (st : ctl_state) (outs : list ctl_out) (evs : list cev) : Z :=
   match evs with
@@ -132,6 +133,10 @@ Fixpoint ctl_check (auth : bytes -> Z -> bytes) (st : ctl_state) (outs : list ct
                                       | OutReply tr _ | OutResp _ _ tr _ => existsb (fun bx : Z * list oresp => fst bx =? tr) inboxes
                                       | _ => true end) outs) then 33
       else ctl_check auth st outs r
+  | OC names :: r =>
+      if (Nat.eqb (length names) (length (st_cfgs st))) &&
+         forallb (fun n => existsb (fun c => bytes_eqb n (cc_name c)) (st_cfgs st)) names
+      then ctl_check auth st outs r else 34
   end.
 
 (* the property on OBSERVED responses: candidate ranges well formed, instruction => role present *)
@@ -139,7 +144,7 @@ Definition oresp_holds (o : oresp) : bool :=
   let 'RS _ sid _ cands _ _ role _ _ _ ranges _ _ err := o in
   range_holds ranges && (if err =? 0 then true else (role =? 0) && (sid <? 0) && match cands with [] => true | _ => false end).
 Definition cev_holds (c : cev) : bool :=
-  match c with O _ inboxes => forallb (fun bx : Z * list oresp => forallb oresp_holds (snd bx)) inboxes | E _ => true end.
+  match c with O _ inboxes => forallb (fun bx : Z * list oresp => forallb oresp_holds (snd bx)) inboxes | E _ | OC _ => true end.
 
 (* 0 agree | 1 model panics | 2 number of outputs differs | 3 an output differs | 10 classify result class differs
    11 classified feature differs | 20 range differs | 5x the property fails on the OBSERVED values *)
@@ -180,7 +185,7 @@ Definition is_ctl (c : case) : bool := match c with CCtl _ _ => true | _ => fals
 Definition ev_kind (k : Z) (e : ctl_ev) : bool :=
   match e, k with
   | EvVisitor _ _ _, 0 | EvDeliver _, 1 | EvClient _ _, 2 | EvWake _, 3 | EvTimeout _, 4 | EvAnalyse _, 5
-  | EvSendV _, 6 | EvSendC _, 7 | EvSleepDone _, 8 | EvReport _ _, 9 | EvListen _ _ _, 10 | EvClose _, 11 | EvGiveUp _, 12 => true
+  | EvSendV _, 6 | EvSendC _, 7 | EvSleepDone _, 8 | EvReport _ _, 9 | EvListen _ _ _, 10 | EvClose _, 11 | EvGiveUp _, 12 | EvProxyClose _, 13 | EvHandoverDone _, 14 | EvLoopExit _, 15 => true
   | _, _ => false
   end.
 Definition count_ev (k : Z) (l : list case) : Z := count_if (ev_kind k) (flat_map ctl_evs l).
